@@ -132,14 +132,34 @@ def hand_files(draw):
         m, rm = ch(allmodes), ch(rmodes)
         if x in removed:
             r = 99
+        # directive chains (asm.rst, @bfix): '>' directives stacked before, and plain / '|' directives chained after,
+        # another directive on the same instruction
+        chain_after = []
+        if r < 42 and x not in removed and ch([0, 0, 0, 1]):
+            for _ in range(ch([1, 1, 2])):
+                lines.append('@%s=>%s' % (rm, randop(x)))
+            relocating = True
+            inplace_only = False
+            feats.add('chain:prepend')
+        if r < 42 and ch([0, 0, 0, 1]):
+            chain_after = [randop(x) for _ in range(ch([1, 1, 2]))]
         if r < 15:
             lines.append('@%s=%s' % (m, samesize(k, x)))
             feats.add('sub:' + m)
+            if chain_after and i + 1 < count:
+                # replacement followed by instructions inserted after it
+                lines.extend('@%s=%s' % (rm, op) for op in chain_after)
+                relocating = True
+                inplace_only = False
+                feats.add('chain:replace+insert')
         elif r < 20:
             lines.append('@%s=%s' % (rm, randop(x)))
             relocating = True
             inplace_only = False
             feats.add('sub:' + rm)
+            if chain_after and i + 1 < count:
+                lines.extend('@%s=%s' % (rm, op) for op in chain_after)
+                feats.add('chain:replace+insert')
         elif r < 28:
             lines.append('@%s=>%s' % (rm, randop(x)))
             relocating = True
@@ -150,14 +170,19 @@ def hand_files(draw):
             relocating = True
             inplace_only = False
             feats.add('insert-after')
+            if chain_after:
+                lines.extend('@%s=%s' % (rm, op) for op in chain_after)
+                feats.add('chain:after+insert')
         elif r < 42:
-            op1 = randop(x)
-            lines.append('@%s=|%s' % (rm, op1))
+            ops = [randop(x)] + (chain_after if i + 1 < count else [])
+            lines.extend('@%s=|%s' % (rm, op1) for op1 in ops)
             relocating = True
             inplace_only = False
             feats.add('overwrite')
-            # instructions wholly or partly covered by the overwrite are removed
-            size = _op_size(op1)
+            if len(ops) > 1:
+                feats.add('chain:overwrite')
+            # instructions wholly or partly covered by the overwrite (chain) are removed
+            size = sum(_op_size(op1) for op1 in ops)
             for y in addrs:
                 if x < y < x + size:
                     removed.add(y)
@@ -249,7 +274,16 @@ def cases(draw, tier):
     f['base'] = draw(st.sampled_from([[], ['-D'], ['-H']]))
     f['case'] = draw(st.sampled_from([[], ['-l'], ['-u']]))
     f['labels'] = draw(st.sampled_from([[], ['-c']]))
-    f['meta'] = draw(st.sampled_from(['options', 'nowarn', 'label', 'keep']))
+    # a directive-stripping/renaming variant only where the file has that directive (sna2skool output has none)
+    sk = f.get('skool', '')
+    metas = ['options']
+    if '@nowarn' in sk:
+        metas += ['nowarn', 'nowarn']
+    if '@label=' in sk:
+        metas.append('label')
+    if '@keep' in sk and not f.get('relocating'):
+        metas += ['keep', 'keep']
+    f['meta'] = draw(st.sampled_from(metas))
     return f
 
 
@@ -329,6 +363,8 @@ def oracle(case, rec=None):
             elif meta == 'keep' and '@keep' in skool and not case.get('relocating'):
                 skool2 = '\n'.join(l for l in skool.split('\n') if not l.startswith('@keep'))
             if skool2 is not None:
+                if rec is not None:
+                    rec.note('O2:%s:applied' % meta)
                 img2, _ = image_from_skool2bin(s, skool2, bopt, case, 'm')
                 mem2, _ = image_from_skool2asm(s, skool2, aopts, case, 'm')
                 if img2 != img:
@@ -340,10 +376,12 @@ def oracle(case, rec=None):
         # O3 #PEEK
         if True:
             lo, hi = min(img), max(img)
-            hi = min(hi, lo + 40)
+            hi = min(hi, lo + 255)
             probe = '; PEEK #FOR(%d,%d,,1)(n,#PEEKn)' % (lo, hi)
             lines = skool.split('\n')
-            idx = next((i for i, l in enumerate(lines) if l[:1] in 'cbtwsug' and l[1:6].strip().isdigit()), None)
+            idx = next((i for i, l in enumerate(lines) if re.match(r'[cbtwsug](\$[0-9A-Fa-f]{4}|[0-9 ]{4}[0-9]) ', l)), None)
+            if idx is None and rec is not None:
+                rec.note('O3:no-entry-line')
             if idx is not None:
                 # as the first line of the description of the first entry
                 h = idx
@@ -362,7 +400,9 @@ def oracle(case, rec=None):
                 if r3.exc is not None:
                     raise Violation(crash_sig(r3.exc, 'skool2asm'), 'skool2asm raised %r with a #PEEK probe' % r3.exc, case)
                 m = re.search(r'^; PEEK((?: [\d,]+)?(?:\n; [\d,]+)*)$', r3.out, re.M)
-                if r3.ok and m is None and rec is not None:
+                if not r3.ok:
+                    raise Violation('skool2asm-exit:probe', 'skool2asm exited %r with a #PEEK probe: %s' % (r3.code, r3.err[-200:]), case)
+                if m is None and rec is not None:
                     rec.note('O3:probe-not-found')
                 if r3.ok and m:
                     if rec is not None:
